@@ -221,6 +221,29 @@ def _in_to_variant(P, fn, adt_name, kind, _depth=0):
                         break
             if g is not None:
                 return _in_to_variant(P, g, adt_name, kind, 1)
+    # table-driven reader (no branch on the input in the function itself): evaluate it on every candidate input
+    ev0 = evaluate(fn)
+    r0 = strip_sites(ev0.ret)
+    if not any(x.op == "phi" for x in subterms(r0)) and not any(B.peel(d).op == "param" or any(y.op == "param" for y in subterms(d)) for d in ev0.switch.values()):
+        from ..core import ceval as CE
+
+        p1 = T("param", 1, ev0.pname(1))
+        if kind == "int":
+            cands = list(range(256))
+        else:
+            cands = sorted({bytes.fromhex(x.a[1]) for f_ in P.fns.values() for s_ in evaluate(f_).sites.values() for a_ in s_.args for x in subterms(a_) if x.op == "const" and x.a[0] == "bytes"} | {bytes.fromhex(x.a[1]) for c_ in P.consts for x in subterms(__import__("analysis.core.sym", fromlist=["_val"])._val(c_.get("value") or {}, None)) if x.op == "const" and x.a[0] == "bytes"})
+        m = {}
+        try:
+            other = CE.result_variant(CE.ceval(P, r0, {p1: 255 if kind == "int" else b"\x00<none>"}))
+            for k_ in cands:
+                v_ = CE.result_variant(CE.ceval(P, r0, {p1: k_}))
+                if v_ != other or (kind == "int" and False):
+                    m[k_ if kind == "int" else k_.decode("latin-1")] = v_
+            m["otherwise"] = other
+            # keys that map to the fallback variant as well (e.g. 2 -> ProofOfPossession by position and by default)
+            return m
+        except CE.Unknown:
+            pass
     rows = switch_table(P, fn)
     m = {}
     for conds, out, b in rows:
@@ -415,8 +438,15 @@ def classify_reader(P, f):
             kinds.add(("ScalarLE",))
         elif n == "TryInto::try_into" and len(g) == 2 and g[1].startswith("[u8;"):
             kinds.add(("Raw",))
+        elif n == "TryFrom::try_from" and g and g[0].startswith("[u8;"):
+            # `<[u8; N]>::try_from(slice)`: the whole input is the fixed-size payload (unless it is decoded further)
+            kinds.add(("RawArray",))
         elif n == "TryFrom::try_from" and g and g[0] == "Bls12381":
             kinds.add(("CurveTagged",))
+    if ("RawArray",) in kinds:
+        kinds.discard(("RawArray",))
+        if not kinds:
+            kinds.add(("Raw",))
     return kinds
 
 
